@@ -619,13 +619,19 @@ func (rn *runner) run(runNo int, crashAfter int, last bool) (cont bool, died boo
 	// stop the run
 	cancel()
 	if !ended {
+		spinStart := time.Now()
 		for spins := 0; ; spins++ {
 			if spins == 2000 {
 				// the stopped run keeps looping: end the byte source as a closed channel reader would
 				feed.CloseWith(io.EOF)
 			}
-			if spins > 200000 {
+			// (time based: on a loaded machine the goroutine that turns the cancelled context into a closed
+			// replay wait may be scheduled late while this hand-shake loop runs at full speed)
+			if spins > 200000 && time.Since(spinStart) > 10*time.Second {
 				hx.Fatal("scenario %d: sender loop keeps spinning after cancel", sc.ID)
+			}
+			if spins > 2000 && spins%64 == 0 {
+				time.Sleep(50 * time.Microsecond)
 			}
 			select {
 			case g.release <- struct{}{}:
